@@ -5,42 +5,68 @@
    grid is NOT a theorem here: it is checked on the implementation (exactly on dyadic step models) by harness/props/C19.py. *)
 From Coq Require Import List Arith Bool Reals QArith.
 From RV Require Import Base.RB Base.ExtNum Model.Copula Gen.GenC12Mass Model.MassNd Gen.GenC19Theta Gen.GenC19Spread Model.Credit
-  Proofs.C12_Mass Proofs.C12_Nonneg Proofs.C19_Credit Proofs.C19_Spread.
+  Proofs.C12_Mass Proofs.C12_Family Proofs.C12_Nonneg Proofs.C11_Copula Proofs.C11_Clayton Proofs.C11_Increasing Proofs.C11_Dep3 Proofs.C19_Credit Proofs.C19_Spread.
 Import ListNotations.
 Open Scope R_scope.
 
 (* theta is the mass of the union of the default half-spaces {x_i <= a_i}: disjoint decomposition
-   {x1<=a1} u {x1>a1, x2<=a2} u {x1>a1, x2>a2, x3<=a3}, and inclusion-exclusion for d = 2 *)
-Theorem C19_theta_is_union_mass : forall (U1 : nat -> ext R -> R) (UI : idx -> list (ext R) -> R),
-  (forall I x, existsb is_inf x = true -> UI (Some I) x = 0) -> (forall i x, UI (Some [i]) [x] = U1 i x) ->
+   {x1<=a1} u {x1>a1, x2<=a2} u {x1>a1, x2>a2, x3<=a3}, and inclusion-exclusion (d = 2 and d = 3), on the family the code
+   builds from ANY grounded copula function and marginal tails V vanishing at +-inf (no hypothesis on the family itself) *)
+Theorem C19_theta_is_union_mass : forall (V : nat -> ext R -> ext R) (cop : list (ext R) -> R), tails_inf V ->
   forall a1 a2 a3, @xlt0 RNum a1 = true -> @xlt0 RNum a2 = true -> @xlt0 RNum a3 = true ->
+  let U1 := tail_val RNum V in
   th1 RNum U1 a1 = fast_1d RNum U1 NInf a1 0%nat /\
-  th2 RNum U1 UI a1 a2 = fast_2d RNum U1 UI [NInf; NInf] [a1; PInf] None + fast_2d RNum U1 UI [a1; NInf] [PInf; a2] None /\
-  th2 RNum U1 UI a1 a2 = fast_2d RNum U1 UI [NInf; NInf] [a1; PInf] None + fast_2d RNum U1 UI [NInf; NInf] [PInf; a2] None
-                         - fast_2d RNum U1 UI [NInf; NInf] [a1; a2] None /\
-  th3 RNum U1 UI a1 a2 a3 = fast_3d RNum U1 UI [NInf; NInf; NInf] [a1; PInf; PInf] None
-                            + fast_3d RNum U1 UI [a1; NInf; NInf] [PInf; a2; PInf] None
-                            + fast_3d RNum U1 UI [a1; a2; NInf] [PInf; PInf; a3] None.
+  (grounded2 cop -> let UI := margin_tail_integral RNum V cop 2 in
+     th2 RNum U1 UI a1 a2 = fast_2d RNum U1 UI [NInf; NInf] [a1; PInf] None + fast_2d RNum U1 UI [a1; NInf] [PInf; a2] None /\
+     th2 RNum U1 UI a1 a2 = fast_2d RNum U1 UI [NInf; NInf] [a1; PInf] None + fast_2d RNum U1 UI [NInf; NInf] [PInf; a2] None
+                            - fast_2d RNum U1 UI [NInf; NInf] [a1; a2] None) /\
+  (grounded3 cop -> let UI := margin_tail_integral RNum V cop 3 in let f3 := fast_3d RNum U1 UI in
+     th3 RNum U1 UI a1 a2 a3 = f3 [NInf; NInf; NInf] [a1; PInf; PInf] None + f3 [a1; NInf; NInf] [PInf; a2; PInf] None
+                               + f3 [a1; a2; NInf] [PInf; PInf; a3] None /\
+     th3 RNum U1 UI a1 a2 a3 =
+       f3 [NInf; NInf; NInf] [a1; PInf; PInf] None + f3 [NInf; NInf; NInf] [PInf; a2; PInf] None + f3 [NInf; NInf; NInf] [PInf; PInf; a3] None
+       - f3 [NInf; NInf; NInf] [a1; a2; PInf] None - f3 [NInf; NInf; NInf] [a1; PInf; a3] None - f3 [NInf; NInf; NInf] [PInf; a2; a3] None
+       + f3 [NInf; NInf; NInf] [a1; a2; a3] None).
 Proof.
-  intros U1 UI Hinf Hone a1 a2 a3 H1 H2 H3. split. eapply theta1_union; eassumption.
-  split. eapply theta2_union; eassumption. split. eapply theta2_union; eassumption. eapply theta3_union; eassumption.
+  intros V cop Vinf a1 a2 a3 H1 H2 H3 U1. split; [|split].
+  - subst U1. unfold th1, GenC19Theta.theta_1, mass_below, fast_1d, mass_1d, tail_val. rewrite H1. cbn. rewrite (proj2 (Vinf 0%nat)). cbn. ring.
+  - intros G. apply theta2_union_model; assumption.
+  - intros G. apply theta3_union_model; assumption.
 Qed.
 
-(* theta is non-decreasing in each threshold, for every copula that is a Levy copula in the sense of C11 and
-   marginal tails of a non-negative measure *)
-Theorem C19_monotone : forall (U1 : nat -> ext R -> R) (cop : list (ext R) -> R), tails_ok U1 ->
+(* theta is non-decreasing in each threshold: for every Levy copula in the sense of C11 and (real-valued) marginal tails of a
+   non-negative measure; second theorem: for the three copulas of the model helpers without any hypothesis on the copula *)
+Theorem C19_monotone : forall (U1 : nat -> ext R -> R) (cop : list (ext R) -> R), rtails_ok U1 ->
   forall a1 a1' a2 a2' a3 a3',
   @xleb RNum a1 a1' = true -> @xlt0 RNum a1' = true -> @xleb RNum a2 a2' = true -> @xlt0 RNum a2' = true ->
   @xleb RNum a3 a3' = true -> @xlt0 RNum a3' = true ->
+  let V := fun i x => Fin (U1 i x) in
   th1 RNum U1 a1 <= th1 RNum U1 a1' /\
-  (copula2_ok cop -> let UI := margin_tail_integral RNum U1 cop 2 in
+  (copula2_ok cop -> let UI := margin_tail_integral RNum V cop 2 in
      th2 RNum U1 UI a1 a2 <= th2 RNum U1 UI a1' a2 /\ th2 RNum U1 UI a1 a2 <= th2 RNum U1 UI a1 a2') /\
-  (copula3_ok cop -> let UI := margin_tail_integral RNum U1 cop 3 in
+  (copula3_ok cop -> let UI := margin_tail_integral RNum V cop 3 in
      th3 RNum U1 UI a1 a2 a3 <= th3 RNum U1 UI a1' a2 a3 /\ th3 RNum U1 UI a1 a2 a3 <= th3 RNum U1 UI a1 a2' a3 /\
      th3 RNum U1 UI a1 a2 a3 <= th3 RNum U1 UI a1 a2 a3').
 Proof.
-  intros U1 cop Tok a1 a1' a2 a2' a3 a3' L1 N1 L2 N2 L3 N3. split. apply theta1_monotone; assumption.
+  intros U1 cop Tok a1 a1' a2 a2' a3 a3' L1 N1 L2 N2 L3 N3 V. split. apply theta1_monotone; assumption.
   split. intros C. apply theta2_monotone; assumption. intros C. apply theta3_monotone; assumption.
+Qed.
+Theorem C19_monotone_modelled : forall (U1 : nat -> ext R -> R) th et, rtails_ok U1 -> 0 < th -> 0 <= et <= 1 ->
+  forall cop, cop = indep RNum \/ cop = dep RNum \/ cop = clayton th et ->
+  forall a1 a1' a2 a2' a3 a3',
+  @xleb RNum a1 a1' = true -> @xlt0 RNum a1' = true -> @xleb RNum a2 a2' = true -> @xlt0 RNum a2' = true ->
+  @xleb RNum a3 a3' = true -> @xlt0 RNum a3' = true ->
+  let V := fun i x => Fin (U1 i x) in
+  (let UI := margin_tail_integral RNum V cop 2 in
+     th2 RNum U1 UI a1 a2 <= th2 RNum U1 UI a1' a2 /\ th2 RNum U1 UI a1 a2 <= th2 RNum U1 UI a1 a2') /\
+  (let UI := margin_tail_integral RNum V cop 3 in
+     th3 RNum U1 UI a1 a2 a3 <= th3 RNum U1 UI a1' a2 a3 /\ th3 RNum U1 UI a1 a2 a3 <= th3 RNum U1 UI a1 a2' a3 /\
+     th3 RNum U1 UI a1 a2 a3 <= th3 RNum U1 UI a1 a2 a3').
+Proof.
+  intros U1 th et Tok Hth Het cop Hc a1 a1' a2 a2' a3 a3' L1 N1 L2 N2 L3 N3 V.
+  assert (C2 : copula2_ok cop) by (destruct Hc as [E|[E|E]]; subst cop; [apply indep_copula2_ok | apply dep_copula2_ok | apply clayton_copula2_ok; assumption]).
+  assert (C3 : copula3_ok cop) by (destruct Hc as [E|[E|E]]; subst cop; [apply indep_copula3_ok | apply dep_copula3_ok | apply clayton_copula3_ok; assumption]).
+  split. apply theta2_monotone; assumption. apply theta3_monotone; assumption.
 Qed.
 
 (* survival = exp(-t theta), par spread = (1-R) theta; the objective of implied_cds_spread is affine in the spread with
@@ -67,6 +93,22 @@ Proof.
   split. exact M. split. exact U. exact Z.
 Qed.
 
+(* implied quantities: (1) present-value round trip -- the implied spread of the model PV of a CDS paying s0 is s0;
+   (2) the objective of implied_cds_threshold, cds_spread(a) - target, is non-decreasing in the threshold wherever theta is
+   (by C19_monotone it is, on negative thresholds), its zeros reproduce the target spread, and the root is searched in
+   (-10, -h0).  scipy.optimize.brentq itself is not modelled. *)
+Theorem C19_implied_quantities : forall (A : Type) (theta_of : A -> R) (le : A -> A -> Prop) (r rec T s0 s target : R) (a : A),
+  (0 < r + theta_of a -> 0 < T ->
+     (implied_fun r (theta_of a) (implied_fun_default_leg r (theta_of a) rec T - s0 * implied_fun_fixed_leg r (theta_of a) rec T) rec T s = 0
+      <-> s = s0)) /\
+  ((forall x y, le x y -> theta_of x <= theta_of y) -> rec <= 1 ->
+     (forall x y, le x y -> implied_threshold_fun A theta_of target rec x <= implied_threshold_fun A theta_of target rec y) /\
+     (forall x, implied_threshold_fun A theta_of target rec x = 0 <-> cds_spread A theta_of x rec = target) /\
+     (forall h0, implied_threshold_fun_bracket h0 = (-10, - h0))).
+Proof.
+  intros. split. intros; apply implied_pv_roundtrip; assumption. intros M Hr. apply (implied_threshold_props A theta_of le M target rec Hr).
+Qed.
+
 (* non-vacuity: the Q instance of the generated theta evaluates on a dyadic step model (independent copula): the union
    mass is the sum of the two marginal masses below the thresholds *)
 Open Scope Q_scope.
@@ -79,4 +121,7 @@ Proof. vm_compute. repeat split. Qed.
 
 Print Assumptions C19_theta_is_union_mass.
 Print Assumptions C19_monotone.
+Print Assumptions C19_monotone_modelled.
 Print Assumptions C19_spread_maps.
+Print Assumptions C19_implied_quantities.
+Print Assumptions C19_nonvacuous.
